@@ -396,4 +396,340 @@ theorem tf_parseMultilineBlock : TF (α := α) (fun _ => True) (parseMultilineBl
   unfold parseMultilineBlock; tf
 macro_rules | `(tactic| tf_leaf) => `(tactic| with_reducible exact tf_parseMultilineBlock)
 
+
+/-! ### what `metadata_entry` pushes depends only on the block
+
+  `SE f f'`: on states with the same core (tokens, cursor, extensions, character tables) `f` and `f'`
+  return the same value, end in the same core and APPEND THE SAME EVENTS to their queues. -/
+
+structure SE {β : Type} (f f' : P α β) : Prop where
+  run : ∀ s s', s.core = s'.core → (f s).1 = (f' s').1 ∧ (f s).2.core = (f' s').2.core ∧
+    ∃ new : List (Ev α), (f s).2.evs.toList = s.evs.toList ++ new ∧ (f' s').2.evs.toList = s'.evs.toList ++ new
+
+theorem SE.pure {β : Type} (a : β) : SE (α := α) (pure a) (pure a) :=
+  ⟨fun _ _ h => ⟨rfl, h, [], by simp [Pure.pure, StateT.pure], by simp [Pure.pure, StateT.pure]⟩⟩
+
+theorem SE.bind {β γ : Type} {f f' : P α β} {g g' : β → P α γ}
+    (hf : SE f f') (hg : ∀ a, SE (g a) (g' a)) : SE (f >>= g) (f' >>= g') := by
+  refine ⟨fun s s' h => ?_⟩
+  obtain ⟨r1, c1, n1, a1, b1⟩ := hf.run s s' h
+  obtain ⟨r2, c2, n2, a2, b2⟩ := (hg (f s).1).run (f s).2 (f' s').2 c1
+  have e1 : (f >>= g) s = g (f s).1 (f s).2 := rfl
+  have e2 : (f' >>= g') s' = g' (f' s').1 (f' s').2 := rfl
+  rw [e1, e2, ← r1]
+  refine ⟨r2, c2, n1 ++ n2, ?_, ?_⟩
+  · rw [a2, a1, List.append_assoc]
+  · rw [b2, b1, List.append_assoc]
+
+theorem SE.get_bind {γ : Type} {g g' : BP α → P α γ}
+    (hg : ∀ s0 s0', s0.core = s0'.core → SE (g s0) (g' s0')) :
+    SE ((get : P α (BP α)) >>= g) ((get : P α (BP α)) >>= g') :=
+  ⟨fun s s' h => (hg s s' h).run s s' h⟩
+
+theorem SE.modify (k : BP α → BP α) (h : ∀ s s', s.core = s'.core → (k s).core = (k s').core)
+    (he : ∀ s, (k s).evs = s.evs) :
+    SE (α := α) (modify k : P α Unit) (modify k : P α Unit) :=
+  ⟨fun s s' hc => ⟨rfl, h s s' hc, [], by show (k s).evs.toList = _; rw [he]; simp,
+    by show (k s').evs.toList = _; rw [he]; simp⟩⟩
+
+syntax "se_leaf" : tactic
+macro_rules | `(tactic| se_leaf) => `(tactic| with_reducible exact SE.pure _)
+macro_rules | `(tactic| se_leaf) => `(tactic| assumption)
+
+macro "se" : tactic => `(tactic| repeat' (first
+  | intro _
+  | se_leaf
+  | dsimp only
+  | with_reducible apply SE.bind
+  | split))
+
+theorem se_panicWith (site : String) : SE (α := α) (panicWith site) (panicWith site) := by
+  unfold panicWith
+  apply SE.modify
+  · intro s s' h
+    have e : ∀ s : BP α, (if s.panic.isNone then { s with panic := some site } else s).core = s.core := by
+      intro s; split <;> rfl
+    rw [e, e]; exact h
+  · intro s; split <;> rfl
+macro_rules | `(tactic| se_leaf) => `(tactic| with_reducible exact se_panicWith _)
+
+theorem se_pushEv (e : Ev α) : SE (α := α) (pushEv e) (pushEv e) :=
+  ⟨fun s s' h => ⟨rfl, h, [e], by show (s.evs.push e).toList = _; simp,
+    by show (s'.evs.push e).toList = _; simp⟩⟩
+theorem se_perr (k : String) (l : List Span) : SE (α := α) (perr k l) (perr k l) := se_pushEv _
+theorem se_pwarn (k : String) (l : List Span) : SE (α := α) (pwarn k l) (pwarn k l) := se_pushEv _
+macro_rules | `(tactic| se_leaf) => `(tactic| with_reducible exact se_perr _ _)
+macro_rules | `(tactic| se_leaf) => `(tactic| with_reducible exact se_pwarn _ _)
+
+theorem se_restToks : SE (α := α) restToks restToks := by
+  unfold restToks
+  apply SE.get_bind
+  intro s0 s0' h
+  obtain ⟨h1, h2, _, _⟩ := core_eq h
+  rw [h1, h2]; exact SE.pure _
+macro_rules | `(tactic| se_leaf) => `(tactic| with_reducible exact se_restToks)
+
+theorem se_peekK : SE (α := α) peekK peekK := by
+  unfold peekK
+  apply SE.get_bind
+  intro s0 s0' h
+  obtain ⟨h1, h2, _, _⟩ := core_eq h
+  rw [h1, h2]; exact SE.pure _
+macro_rules | `(tactic| se_leaf) => `(tactic| with_reducible exact se_peekK)
+theorem se_atK (k : TK) : SE (α := α) (atK k) (atK k) := by unfold atK; se
+macro_rules | `(tactic| se_leaf) => `(tactic| with_reducible exact se_atK _)
+
+theorem se_nextToken : SE (α := α) nextToken nextToken := by
+  refine ⟨fun s s' h => ?_⟩
+  obtain ⟨h1, h2, h3, h4⟩ := core_eq h
+  simp only [nextToken, bind, StateT.bind, get, getThe, MonadStateOf.get, StateT.get, set, pure]
+  rw [← h1, ← h2]
+  cases s.toks[s.cur]? with
+  | none => exact ⟨rfl, h, [], by rw [List.append_nil]; rfl, by rw [List.append_nil]; rfl⟩
+  | some t =>
+    refine ⟨rfl, ?_, [], by rw [List.append_nil]; rfl, by rw [List.append_nil]; rfl⟩
+    simp [BP.core, StateT.bind, StateT.set, StateT.pure, h3, h4]
+    exact ⟨rfl, rfl, rfl, rfl⟩
+macro_rules | `(tactic| se_leaf) => `(tactic| with_reducible exact se_nextToken)
+
+theorem se_bumpAny : SE (α := α) bumpAny bumpAny := by unfold bumpAny; se
+macro_rules | `(tactic| se_leaf) => `(tactic| with_reducible exact se_bumpAny)
+theorem se_bump (k : TK) : SE (α := α) (bump k) (bump k) := by unfold bump; se
+macro_rules | `(tactic| se_leaf) => `(tactic| with_reducible exact se_bump _)
+theorem se_consumeK (k : TK) : SE (α := α) (consumeK k) (consumeK k) := by unfold consumeK; se
+macro_rules | `(tactic| se_leaf) => `(tactic| with_reducible exact se_consumeK _)
+
+theorem se_addCur (n : Nat) : SE (α := α) (modify fun s => { s with cur := s.cur + n } : P α Unit)
+    (modify fun s => { s with cur := s.cur + n }) := by
+  apply SE.modify
+  · core_tac
+  · intro s; rfl
+macro_rules | `(tactic| se_leaf) => `(tactic| with_reducible exact se_addCur _)
+
+theorem se_untilK (f : TK → Bool) : SE (α := α) (untilK f) (untilK f) := by unfold untilK; se
+macro_rules | `(tactic| se_leaf) => `(tactic| with_reducible exact se_untilK _)
+theorem se_consumeRest : SE (α := α) consumeRest consumeRest := by unfold consumeRest; se
+macro_rules | `(tactic| se_leaf) => `(tactic| with_reducible exact se_consumeRest)
+theorem se_tokensSpanP (site : String) (ts : List Tok) : SE (α := α) (tokensSpanP site ts) (tokensSpanP site ts) := by
+  unfold tokensSpanP; se
+macro_rules | `(tactic| se_leaf) => `(tactic| with_reducible exact se_tokensSpanP _ _)
+
+theorem se_baseOffset : SE (α := α) baseOffset baseOffset := by
+  unfold baseOffset
+  apply SE.get_bind
+  intro s0 s0' h
+  obtain ⟨h1, _, _, _⟩ := core_eq h
+  rw [h1]; exact SE.pure _
+macro_rules | `(tactic| se_leaf) => `(tactic| with_reducible exact se_baseOffset)
+
+theorem se_currentOffset : SE (α := α) currentOffset currentOffset := by
+  unfold currentOffset
+  apply SE.get_bind
+  intro s0 s0' h
+  obtain ⟨h1, h2, _, _⟩ := core_eq h
+  rw [h1, h2]; se
+macro_rules | `(tactic| se_leaf) => `(tactic| with_reducible exact se_currentOffset)
+
+theorem se_bpSpan : SE (α := α) bpSpan bpSpan := by
+  unfold bpSpan
+  apply SE.get_bind
+  intro s0 s0' h
+  obtain ⟨h1, _, _, _⟩ := core_eq h
+  rw [h1]; se
+macro_rules | `(tactic| se_leaf) => `(tactic| with_reducible exact se_bpSpan)
+
+theorem se_bpText (o : Nat) (ts : List Tok) : SE (α := α) (bpText o ts) (bpText o ts) := by unfold bpText; se
+macro_rules | `(tactic| se_leaf) => `(tactic| with_reducible exact se_bpText _ _)
+
+theorem se_metadataEntry : SE (α := α) (metadataEntry (α := α)) metadataEntry := by
+  unfold metadataEntry
+  repeat' (first
+    | intro _
+    | se_leaf
+    | dsimp only
+    | (with_reducible apply SE.get_bind
+       intro s0 s0' h
+       have hcs := (core_eq h).2.2.2
+       simp only [hcs])
+    | with_reducible apply SE.bind
+    | split)
+
+/-! ### one block -/
+
+/-- the events `metadata_entry` pushes while it parses a block (a function of the block alone) -/
+def entryEvs (cs : CharSpec) (ext : Ext) (b : List Tok) : List (Ev α) :=
+  (metadataEntry (α := α) ⟨b, 0, ext, cs, #[], none⟩).2.evs.toList
+
+/-- what a `>>` block contributes to the metadata trace: the metadata diagnostics `metadata_entry`
+    pushes, then the entry itself (if one was parsed) -/
+def entryTrace (cs : CharSpec) (ext : Ext) (b : List Tok) : List (Ev α) :=
+  (entryEvs (α := α) cs ext b).filter Ev.isTrace ++ (entryOf (α := α) cs ext b).toList
+
+theorem entryEvs_indep (cs : CharSpec) (ext : Ext) (b : List Tok) (evs : Array (Ev α)) (p : Option String) :
+    (metadataEntry (α := α) ⟨b, 0, ext, cs, evs, p⟩).2.evs.toList = evs.toList ++ entryEvs cs ext b := by
+  obtain ⟨_, _, new, h1, h2⟩ := se_metadataEntry.run (⟨b, 0, ext, cs, evs, p⟩ : BP α) ⟨b, 0, ext, cs, #[], none⟩ rfl
+  have : new = entryEvs (α := α) cs ext b := by
+    unfold entryEvs; rw [h2]; simp
+  rw [← this]; exact h1
+
+theorem traceOf_of_toList (a b : Array (Ev α)) (new : List (Ev α)) (h : a.toList = b.toList ++ new) :
+    traceOf a = traceOf b ++ new.filter Ev.isTrace := by
+  unfold traceOf; rw [h, List.filter_append]
+
+/-- `metadata_entry` returns a `Metadata` event or nothing (any state) -/
+theorem metadataEntry_ret (s : BP α) : ∀ ev, (metadataEntry (α := α) s).1 = some ev → ∃ k v, ev = .metadata k v :=
+  ((mf_metadataEntry_ret (α := α)).run s).2
+
+theorem runMetaBlock_trace (cs : CharSpec) (ext : Ext) (b : List Tok) (evs : Array (Ev α)) (p : Option String)
+    (hb : b ≠ []) :
+    traceOf (runMetaBlock (α := α) cs ext b evs p).1 = traceOf evs ++ entryTrace (α := α) cs ext b := by
+  have hne : b.isEmpty = false := by cases b with | nil => contradiction | cons _ _ => rfl
+  have hevs := entryEvs_indep (α := α) cs ext b evs p
+  have hret := metadataEntry_ret (α := α) ⟨b, 0, ext, cs, evs, p⟩
+  unfold entryTrace
+  rw [← entry_indep cs ext b evs p]
+  unfold runMetaBlock
+  simp only [hne, Bool.false_eq_true, if_false, bind, StateT.bind, pure]
+  rcases hme : metadataEntry (α := α) ⟨b, 0, ext, cs, evs, p⟩ with ⟨r, s1⟩
+  rw [hme] at hevs hret
+  cases r with
+  | none =>
+    simp only [Option.toList, List.append_nil]
+    exact traceOf_of_toList _ _ _ hevs
+  | some ev =>
+    obtain ⟨k, v, rfl⟩ := hret _ rfl
+    have : ∀ s : BP α, ((StateT.bind (pushEv (.metadata k v)) fun _ => StateT.bind get fun s : BP α =>
+        if s.cur ≠ s.toks.length then panicWith "Block tokens not parsed" else StateT.pure ()) s).2.evs
+        = s.evs.push (.metadata k v) := by
+      intro s
+      show ((if s.cur ≠ s.toks.length then panicWith "Block tokens not parsed" else StateT.pure ())
+        ({ s with evs := s.evs.push (.metadata k v) } : BP α)).2.evs = _
+      split
+      · exact panicWith_evs _ _
+      · rfl
+    simp only [this, traceOf_push, Option.toList]
+    rw [traceOf_of_toList _ _ _ hevs, List.append_assoc]
+    rfl
+
+/-- in the full parser with `old_style_metadata`, a block starting with `>>` adds to the trace what
+    `metadata_entry` pushed and the entry it returned; if it returned none, the block is parsed again
+    as a step / text block, which adds nothing to the trace -/
+theorem parseBlock_meta_head_trace (s0 : BP α) (hk : (s0.toks[s0.cur]?).map (·.kind) = some .metaStart) :
+    traceOf (parseBlock (α := α) true s0).2.evs =
+      traceOf (metadataEntry (α := α) s0).2.evs ++ (metadataEntry (α := α) s0).1.toList := by
+  unfold parseBlock
+  simp only [bind, StateT.bind, peekK_run, hk]
+  have hret := metadataEntry_ret (α := α) s0
+  rcases hme : metadataEntry (α := α) s0 with ⟨e, s1⟩
+  rw [hme] at hret
+  have hother : ∀ s : BP α, traceOf s.evs = traceOf s1.evs →
+      traceOf ((match ((none : Option (Ev α)), s) with
+        | (a, s) => (match a with
+          | some ev => pushEv ev
+          | none => parseMultilineBlock) s).2.evs) = traceOf s1.evs := by
+    intro s hs
+    exact ((tf_parseMultilineBlock (α := α)).run s).1.trans hs
+  cases e with
+  | none =>
+    rw [withRecover_none (s2 := s1)]
+    · simpa [Option.toList] using hother { s1 with cur := s0.cur } rfl
+    · simp only [StateT.bind, hme]; rfl
+  | some ev =>
+    obtain ⟨k, v, rfl⟩ := hret ev rfl
+    rw [withRecover_some (s2 := s1) (a := .metadata k v)]
+    · show traceOf (s1.evs.push (.metadata k v)) = _
+      rw [traceOf_push]; rfl
+    · simp only [StateT.bind, hme, Bool.or_true, if_true]; rfl
+
+theorem parseBlock_tail_notrace (X : P α (Option (Ev α))) (hX : TF NT X) (s0 : BP α) :
+    traceOf ((match X s0 with
+      | (a, s) => (match a with
+        | some ev => pushEv ev
+        | none => parseMultilineBlock) s).2.evs) = traceOf s0.evs := by
+  obtain ⟨h1, h2⟩ := hX.run s0
+  rcases hx : X s0 with ⟨a, s⟩
+  rw [hx] at h1 h2
+  cases a with
+  | none => exact ((tf_parseMultilineBlock (α := α)).run s).1.trans h1
+  | some ev => exact ((tf_pushEv ev (h2 ev rfl)).run s).1.trans h1
+
+/-- a block that does not start with `>>` (step, text, section) adds nothing to the trace -/
+theorem parseBlock_other_head_trace (o : Bool) (s0 : BP α)
+    (hk : (s0.toks[s0.cur]?).map (·.kind) ≠ some .metaStart) :
+    traceOf (parseBlock (α := α) o s0).2.evs = traceOf s0.evs := by
+  unfold parseBlock
+  simp only [bind, StateT.bind, peekK_run]
+  generalize (s0.toks[s0.cur]?).map (·.kind) = k0 at hk
+  have hnone : TF (α := α) NT (pure (none : Option (Ev α))) := TF.pure _ (by intro ev h; cases h)
+  cases k0 with
+  | none => exact parseBlock_tail_notrace _ hnone s0
+  | some k =>
+    cases k <;> first
+      | exact absurd rfl hk
+      | exact parseBlock_tail_notrace _ (tf_withRecover tf_sectionP) s0
+      | exact parseBlock_tail_notrace _ hnone s0
+
+theorem runBlock_trace (cs : CharSpec) (ext : Ext) (b : List Tok) (evs : Array (Ev α)) (p : Option String)
+    (hb : b ≠ []) :
+    traceOf (runBlock (α := α) cs ext true b evs p).1 =
+      traceOf evs ++ (if isMetaBlock b then entryTrace (α := α) cs ext b else []) := by
+  rw [runBlock_evs cs ext true b evs p hb]
+  cases hm : isMetaBlock b with
+  | true =>
+    obtain ⟨t, r, e, hk⟩ := isMetaBlock_true b hm
+    subst e
+    rw [parseBlock_meta_head_trace _ (by simp [hk]), entry_indep,
+      traceOf_of_toList _ _ _ (entryEvs_indep (α := α) cs ext (t :: r) evs p), List.append_assoc]
+    rfl
+  | false =>
+    rw [parseBlock_other_head_trace]
+    · simp
+    · cases b with
+      | nil => contradiction
+      | cons t r =>
+        have : t.kind ≠ .metaStart := by
+          intro hk; simp [isMetaBlock, hk] at hm
+        simpa using this
+
+theorem fold_trace_agree (cs : CharSpec) (ext : Ext) : ∀ (bs : List (List Tok)), (∀ b ∈ bs, b ≠ []) →
+    ∀ (acc acc' : Array (Ev α) × Option String), traceOf acc.1 = traceOf acc'.1 →
+    traceOf (bs.foldl (fun acc b => runBlock (α := α) cs ext true b acc.1 acc.2) acc).1 =
+    traceOf ((bs.filter isMetaBlock).foldl (fun acc b => runMetaBlock (α := α) cs ext b acc.1 acc.2) acc').1 := by
+  intro bs
+  induction bs with
+  | nil => intro _ acc acc' h; exact h
+  | cons b bs ih =>
+    intro hne acc acc' h
+    have hb : b ≠ [] := hne b (List.mem_cons_self ..)
+    have hbs : ∀ b' ∈ bs, b' ≠ [] := fun b' hb' => hne b' (List.mem_cons_of_mem _ hb')
+    simp only [List.foldl_cons, List.filter_cons]
+    have h1 := runBlock_trace cs ext b acc.1 acc.2 hb
+    cases hm : isMetaBlock b with
+    | true =>
+      simp only [if_true, List.foldl_cons]
+      apply ih hbs
+      rw [h1, hm, runMetaBlock_trace cs ext b acc'.1 acc'.2 hb, h]
+      rfl
+    | false =>
+      simp only [Bool.false_eq_true, if_false]
+      apply ih hbs
+      rw [h1, hm]
+      simpa using h
+
+/-- without front matter, the metadata trace — `Metadata` events AND error/warning events of the
+    kinds `metadata-invalid`, `empty-metadata-key`, `empty-metadata-value`, interleaved as emitted —
+    of the full pull parser is exactly the one of the metadata-only pull parser -/
+theorem metadata_trace_agree (cs : CharSpec) (ext : Ext) (input : List Char)
+    (h : parseFrontmatter cs input = none) :
+    traceOf (pullEvents (α := α) cs ext input).1 = traceOf (pullMetaEvents (α := α) cs ext input).1 := by
+  unfold pullEvents pullMetaEvents
+  simp only [h]
+  have e := blocks_meta_eq (lex cs input).length (lex cs input) (Nat.le_refl _)
+  unfold metaBlocksOf at e
+  rw [e]
+  apply fold_trace_agree
+  · intro b hb
+    exact (blocks_all_infix _ _ b hb).1
+  · rfl
+
 end Cook
